@@ -1,213 +1,404 @@
-(* C20 - proofs about Model/Forward.v *)
-From AV Require Import Base.Prelude Model.Forward.
+(* C20 - theorems about Model/Forward.v (the invariant is in Proofs/ForwardInv.v) *)
+From AV Require Import Base.Prelude Model.Forward Proofs.ForwardInv.
 
 (* ------------------------------------------------------------------------------------------ *)
-(* list observations under append *)
+(* Theorems about the pair.  [start0 s0] : the pair starts as a local forwarder waiting for its
+   channel (st0) or as an already linked remote pair (st_linked). *)
 
-Lemma written_app l1 l2 : written (l1 ++ l2) = written l1 ++ written l2.
+Definition start0 (s0 : st) : Prop := s0 = st0 \/ s0 = st_linked.
+
+Lemma inv_reach c s0 ops : start0 s0 -> INV c (run c s0 ops).
+Proof. intros [-> | ->]; apply inv_run; [apply inv_st0 | apply inv_linked]. Qed.
+
+(* A -> B: everything the socket delivered has been written to the channel, in order, except
+   what still waits in the early-data buffer; nothing waits once the channel is confirmed. *)
+Lemma relay_AB c s0 ops : start0 s0 ->
+  let s := run c s0 ops in
+  inA s = written (outB s) ++ f_buf (sa s) /\ (ph s = Confirmed -> f_buf (sa s) = []).
 Proof.
-  induction l1 as [|e l1 IH]; simpl; [reflexivity|].
-  destruct e; simpl; rewrite IH; try reflexivity. rewrite app_assoc. reflexivity.
+  intros Hs s. pose proof (inv_reach c s0 ops Hs) as Hi. fold s in Hi. split; [apply (i_ab _ _ Hi)|].
+  intros Hp. apply (i_abuf _ _ Hi). rewrite Hp. reflexivity.
 Qed.
 
-Lemma count_eof_app l1 l2 : count_eof (l1 ++ l2) = (count_eof l1 + count_eof l2)%nat.
-Proof. induction l1 as [|e l1 IH]; simpl; [reflexivity|]. destruct e; simpl; rewrite IH; reflexivity. Qed.
+(* B -> A: what was written to the socket is a prefix of what the channel delivered, and all of
+   it as long as the socket transport is there *)
+Lemma relay_BA c s0 ops : start0 s0 ->
+  let s := run c s0 ops in
+  exists t, inB s = written (outA s) ++ t /\ (f_tr (sa s) = true -> t = []).
+Proof. intros Hs s. apply (i_ba _ _ (inv_reach c s0 ops Hs)). Qed.
 
-Lemma count_close_app l1 l2 : count_close (l1 ++ l2) = (count_close l1 + count_close l2)%nat.
-Proof. induction l1 as [|e l1 IH]; simpl; [reflexivity|]. destruct e; simpl; rewrite IH; reflexivity. Qed.
+(* the ghost inputs really are the delivered payloads: for a run in which every DataA was
+   deliverable, inA is the concatenation of the payloads *)
+Fixpoint payloadsA (ops : list op) : bytes :=
+  match ops with [] => [] | DataA d :: r => d ++ payloadsA r | _ :: r => payloadsA r end.
+Fixpoint payloadsB (ops : list op) : bytes :=
+  match ops with [] => [] | DataB d :: r => d ++ payloadsB r | _ :: r => payloadsB r end.
 
-Definition is_data_or_eof (e : tev) : bool :=
-  match e with TWrite _ | TEof => true | _ => false end.
-
-Lemma ordered_from_snoc b l e :
-  ordered_from b l = true -> count_close l = O ->
-  (is_data_or_eof e = true -> b = false /\ count_eof l = O) ->
-  ordered_from b (l ++ [e]) = true.
+Lemma inA_step_other c s o : (forall d, o <> DataA d) -> inA (step c s o) = inA s.
 Proof.
-  revert b. induction l as [|x l IH]; intros b Ho Hc He.
-  - simpl. destruct e; simpl; try reflexivity;
-      destruct (He eq_refl) as [-> _]; reflexivity.
-  - destruct x; simpl in *.
-    + apply andb_true_iff in Ho as [Hb Ho]. rewrite Hb. simpl. apply IH; auto.
-    + apply andb_true_iff in Ho as [Hb Ho]. rewrite Hb. simpl.
-      apply IH; auto. intros H. destruct (He H) as [_ H0]. discriminate.
-    + discriminate.
-    + apply IH; auto.
-    + apply IH; auto.
+  intros Ho. unfold step. destruct (legal s o); [|reflexivity].
+  destruct s as [[ta pa ba ea] [tb pb bb eb] p oa ob la lb ia ib asr].
+  destruct o; try (exfalso; eapply Ho; reflexivity); cbn;
+    unfold do_closeA, do_closeB, do_fail, closeA, closeB, shutA, shutB, wrA, wrB, ctlA, ctlB; cbn;
+    repeat match goal with |- context [if ?b then _ else _] => destruct b; cbn end;
+    try reflexivity; destruct p; cbn;
+    repeat match goal with |- context [if ?b then _ else _] => destruct b; cbn end; try reflexivity;
+    destruct ba; cbn;
+    repeat match goal with |- context [if ?b then _ else _] => destruct b; cbn end; reflexivity.
 Qed.
 
-Lemma ordered_snoc l e :
-  ordered l = true -> count_close l = O ->
-  (is_data_or_eof e = true -> count_eof l = O) ->
-  ordered (l ++ [e]) = true.
-Proof. intros. apply ordered_from_snoc; auto. Qed.
-
-Lemma ordered_from_count_eof b l : ordered_from b l = true -> (count_eof l <= 1)%nat /\ (b = true -> count_eof l = O).
+Lemma inA_step_data c s d : inA (step c s (DataA d)) = inA s ++ (if legal s (DataA d) then d else []).
 Proof.
-  revert b. induction l as [|x l IH]; intros b Ho; simpl in *.
-  - split; [lia | reflexivity].
-  - destruct x.
-    + apply andb_true_iff in Ho as [_ Ho]. apply IH in Ho. exact Ho.
-    + apply andb_true_iff in Ho as [Hb Ho]. apply IH in Ho as [_ Ho].
-      rewrite (Ho eq_refl). split; [lia|]. intros ->. discriminate.
-    + destruct l; [|discriminate]. simpl. split; [lia | reflexivity].
-    + apply IH in Ho. exact Ho.
-    + apply IH in Ho. exact Ho.
+  unfold step. destruct (legal s (DataA d)); [|rewrite app_nil_r; reflexivity].
+  destruct s as [[ta pa ba ea] [tb pb bb eb] p oa ob la lb ia ib asr]. cbn.
+  destruct pa; cbn; [unfold wrB; cbn; destruct tb|]; reflexivity.
 Qed.
 
-Lemma has_eoc_false l : has_eof_or_close l = false -> count_eof l = O /\ count_close l = O.
+(* ordering and half-close *)
+Lemma out_ordered c s0 ops : start0 s0 ->
+  let s := run c s0 ops in ordered (outA s) = true /\ ordered (outB s) = true.
 Proof.
-  unfold has_eof_or_close. induction l as [|x l IH]; simpl; [auto|].
-  destruct x; simpl; intros H; try discriminate; auto.
+  intros Hs s. pose proof (inv_reach c s0 ops Hs) as Hi. split; [apply (i_ordA _ _ Hi) | apply (i_ordB _ _ Hi)].
 Qed.
 
-(* What a complete data stream looks like: only writes, then at most one EOF, then at most one
-   close (pause/resume calls ignored) *)
-Fixpoint strip_ctl (l : list tev) : list tev :=
-  match l with
-  | [] => []
-  | (TPause | TResume) :: r => strip_ctl r
-  | e :: r => e :: strip_ctl r
-  end.
+Lemma eof_AB_once c s0 ops : start0 s0 ->
+  let s := run c s0 ops in
+  (f_eof (sa s) = false -> count_eof (outB s) = O) /\
+  (ph s = Confirmed -> f_eof (sa s) = true -> count_eof (outB s) = 1%nat).
+Proof.
+  intros Hs s. pose proof (inv_reach c s0 ops Hs) as Hi. fold s in Hi. split; [apply (i_ceB0 _ _ Hi)|].
+  intros Hp. apply (i_ceB1 _ _ Hi). rewrite Hp. reflexivity.
+Qed.
+
+(* EOF from the channel while the pair is linked is written to the socket, exactly once *)
+Lemma eof_BA_step c s0 ops : start0 s0 ->
+  let s := run c s0 ops in
+  legal s EofB = true -> f_tr (sa s) = true ->
+  count_eof (outA s) = O /\ count_eof (outA (step c s EofB)) = 1%nat.
+Proof.
+  intros Hs s Hl Ht. destruct (inv_reach c s0 ops Hs) as
+    [H1 H2 H3 H4 H5 H6 H7 H8 H9 H10 H11 H12 H13 H14 H15 H16 H17 H18 H19 H20 H21].
+  fold s in H1, H2, H3, H4, H5, H6, H7, H8, H9, H10, H11, H12, H13, H14, H15, H16, H17, H18, H19, H20, H21.
+  unfold step. rewrite Hl. clearbody s.
+  destruct s as [[ta pa ba ea] [tb pb bb eb] p oa ob la lb ia ib asr]. cbn in *.
+  subst ta. destruct p; cbn in *; try discriminate.
+  destruct eb; cbn in *; try discriminate. destruct lb; cbn in *; try discriminate.
+  specialize (H3 eq_refl eq_refl). subst. specialize (H15 eq_refl). split; [assumption|].
+  unfold wrA; cbn. destruct ea; cbn.
+  - destruct (fix_crossed c); cbn.
+    + unfold closeB, shutB, shutA; cbn. rewrite !count_eof_app. cbn. lia.
+    + destruct (has_eof_or_close ob); cbn; rewrite count_eof_app; cbn; lia.
+  - rewrite count_eof_app. cbn. lia.
+Qed.
+
+(* a half-close leaves the other direction alone: no transport is closed and no link is cut by an
+   EOF unless the other direction had already seen its EOF *)
+Lemma eofA_keeps_open c s : legal s EofA = true -> f_eof (sb s) = false ->
+  let s' := step c s EofA in
+  f_tr (sa s') = f_tr (sa s) /\ f_tr (sb s') = f_tr (sb s) /\
+  f_peer (sa s') = f_peer (sa s) /\ f_peer (sb s') = f_peer (sb s).
+Proof.
+  intros Hl He. unfold step. rewrite Hl.
+  destruct s as [[ta pa ba ea] [tb pb bb eb] p oa ob la lb ia ib asr]. cbn in *. subst eb.
+  destruct pa; cbn; [unfold wrB; cbn; destruct tb; cbn|]; repeat split; reflexivity.
+Qed.
+
+Lemma eofB_keeps_open c s : legal s EofB = true -> f_eof (sa s) = false ->
+  let s' := step c s EofB in
+  f_tr (sa s') = f_tr (sa s) /\ f_tr (sb s') = f_tr (sb s) /\
+  f_peer (sa s') = f_peer (sa s) /\ f_peer (sb s') = f_peer (sb s).
+Proof.
+  intros Hl He. unfold step. rewrite Hl.
+  destruct s as [[ta pa ba ea] [tb pb bb eb] p oa ob la lb ia ib asr]. cbn in *. subst ea.
+  destruct pb; cbn; [unfold wrA; cbn; destruct ta; cbn|]; repeat split; reflexivity.
+Qed.
+
+(* closing *)
+Lemma closed_means_close_called c s0 ops : start0 s0 ->
+  let s := run c s0 ops in
+  (f_tr (sa s) = false -> count_close (outA s) = 1%nat) /\
+  (ph s = Confirmed -> f_tr (sb s) = false -> count_close (outB s) = 1%nat).
+Proof.
+  intros Hs s. pose proof (inv_reach c s0 ops Hs) as Hi. fold s in Hi. split.
+  - intros Ht. rewrite (i_ccA _ _ Hi), Ht. reflexivity.
+  - intros Hp Ht. rewrite (i_ccB _ _ Hi), Ht, Hp. reflexivity.
+Qed.
+
+Lemma close_both_fixed c s0 ops : fix_lost_early c = true -> start0 s0 ->
+  let s := run c s0 ops in
+  lostA s = true \/ lostB s = true -> f_tr (sa s) = false /\ f_tr (sb s) = false.
+Proof.
+  intros Hf Hs s Hl. pose proof (inv_reach c s0 ops Hs) as Hi. fold s in Hi.
+  destruct Hl as [Hl | Hl]; [|apply (i_lostB _ _ Hi); assumption].
+  pose proof (i_lostA _ _ Hi Hl) as Ha. split; [assumption|].
+  destruct (i_fix _ _ Hi Hf) as [_ Hsync].
+  destruct (is_conf (ph s)) eqn:Hc.
+  - rewrite <- Hsync; auto.
+  - destruct (i_pre _ _ Hi Hc) as [Hb _]. rewrite Hb. reflexivity.
+Qed.
+
+Lemma close_both_old_witness :
+  let s := run cfg_old st0 [DataA [1]; CloseA; Confirm] in
+  lostA s = true /\ f_tr (sb s) = true /\ outB s = [TWrite [1]].
+Proof. vm_compute. repeat split. Qed.
+
+(* the unrepaired code still closes both ends for every loss that happens after a point where the
+   channel was confirmed and the socket was still there *)
+Definition with_fle (c : cfg) : cfg := mkCfg (fix_crossed c) true (fix_register c).
+
+Lemma step_fle_conf c s o : ph s = Confirmed -> step c s o = step (with_fle c) s o.
+Proof.
+  intros Hp. unfold step. destruct (legal s o) eqn:Hl; [|reflexivity].
+  destruct o; try reflexivity.
+  unfold legal in Hl. rewrite Hp in Hl. discriminate.
+Qed.
+
+Lemma ph_step_conf c s o : ph s = Confirmed -> ph (step c s o) = Confirmed.
+Proof.
+  intros Hp. unfold step. destruct (legal s o) eqn:Hl; [|assumption].
+  destruct s as [[ta pa ba ea] [tb pb bb eb] p oa ob la lb ia ib asr]. cbn in Hp. subst p.
+  destruct o; cbn in *; try discriminate;
+    unfold do_closeA, do_closeB, closeA, closeB, shutA, shutB, wrA, wrB, ctlA, ctlB; cbn;
+    repeat match goal with |- context [if ?b then _ else _] => destruct b; cbn end; reflexivity.
+Qed.
+
+Lemma inv_upgrade c s : INV c s -> is_conf (ph s) = true -> f_tr (sa s) = f_tr (sb s) ->
+  asrt s = false -> INV (with_fle c) s.
+Proof.
+  intros Hi Hc Hs Ha. destruct Hi. constructor; auto.
+Qed.
+
+Lemma sync_run c s ops : INV (with_fle c) s -> ph s = Confirmed ->
+  INV (with_fle c) (run c s ops) /\ ph (run c s ops) = Confirmed.
+Proof.
+  revert s. induction ops as [|o ops IH]; intros s Hi Hp; simpl; [split; assumption|].
+  apply IH.
+  - rewrite (step_fle_conf c s o Hp). apply inv_step. assumption.
+  - apply ph_step_conf. assumption.
+Qed.
+
+Lemma close_both_partial c s0 ops1 ops2 : start0 s0 ->
+  let s1 := run c s0 ops1 in
+  ph s1 = Confirmed -> f_tr (sa s1) = true ->
+  let s2 := run c s1 ops2 in
+  lostA s2 = true \/ lostB s2 = true -> f_tr (sa s2) = false /\ f_tr (sb s2) = false.
+Proof.
+  intros Hs s1 Hp Ht s2 Hl.
+  pose proof (inv_reach c s0 ops1 Hs) as Hi. fold s1 in Hi.
+  assert (Hup : INV (with_fle c) s1).
+  { apply inv_upgrade; auto.
+    - rewrite Hp. reflexivity.
+    - rewrite Ht. rewrite (i_btr _ _ Hi). rewrite <- (i_peer _ _ Hi). symmetry. apply (i_apeer _ _ Hi); auto.
+      rewrite Hp. reflexivity.
+    - destruct (asrt s1) eqn:Ha; [|reflexivity]. rewrite (i_asrt _ _ Hi Ha) in Ht. discriminate. }
+  destruct (sync_run c s1 ops2 Hup Hp) as [Hi2 Hp2]. fold s2 in Hi2, Hp2.
+  destruct Hl as [Hl | Hl]; [|apply (i_lostB _ _ Hi2); assumption].
+  pose proof (i_lostA _ _ Hi2 Hl) as Ha. split; [assumption|].
+  destruct (i_fix _ _ Hi2 eq_refl) as [_ Hsync]. rewrite <- Hsync; [assumption|]. rewrite Hp2. reflexivity.
+Qed.
+
+(* both directions have seen EOF: with the repair the pair is closed *)
+Lemma both_eof_closed_fixed c s0 ops : fix_crossed c = true -> start0 s0 ->
+  let s := run c s0 ops in
+  f_eof (sa s) = true -> f_eof (sb s) = true -> f_tr (sa s) = false /\ f_tr (sb s) = false.
+Proof. intros Hf Hs s. apply (i_both _ _ (inv_reach c s0 ops Hs) Hf). Qed.
+
+Lemma both_eof_old_witness :
+  let s := run cfg_old st_linked [EofA; EofB] in
+  f_eof (sa s) = true /\ f_eof (sb s) = true /\ f_tr (sa s) = true /\ f_tr (sb s) = true /\
+  lostA s = false /\ lostB s = false.
+Proof. vm_compute. repeat split. Qed.
+
+(* pause propagation and absence of failed assertions *)
+Lemma pause_propagated c s0 ops : start0 s0 ->
+  let s := run c s0 ops in
+  (legal s PauseA = true -> f_peer (sa s) = true -> outB (step c s PauseA) = outB s ++ [TPause]) /\
+  (legal s ResumeA = true -> f_peer (sa s) = true -> outB (step c s ResumeA) = outB s ++ [TResume]).
+Proof.
+  intros Hs s. pose proof (inv_reach c s0 ops Hs) as Hi. fold s in Hi. clearbody s.
+  split; intros Hl Hp; unfold step; rewrite Hl; cbn; rewrite Hp; unfold ctlB;
+    rewrite (i_btr _ _ Hi), <- (i_peer _ _ Hi), Hp; reflexivity.
+Qed.
+
+Lemma no_assert_fixed c s0 ops : fix_lost_early c = true -> start0 s0 -> asrt (run c s0 ops) = false.
+Proof. intros Hf Hs. apply (i_fix _ _ (inv_reach c s0 ops Hs) Hf). Qed.
+
+Lemma assert_old_witness : asrt (run cfg_old st0 [CloseA; Confirm; PauseB]) = true.
+Proof. vm_compute. reflexivity. Qed.
+
+(* the channel's reaction to a False result of eof_received (write_eof if still open) never has
+   anything left to do for a forwarder session: the EOF has always been sent already *)
+Lemma chan_reaction_moot c s0 ops : start0 s0 ->
+  let s := run c s0 ops in
+  legal s EofB = true -> f_peer (sb s) = true -> f_eof (sa s) = true ->
+  has_eof_or_close (outB s) = true.
+Proof.
+  intros Hs s Hl Hp He. pose proof (inv_reach c s0 ops Hs) as Hi. fold s in Hi.
+  destruct (has_eof_or_close (outB s)) eqn:Hh; [reflexivity|].
+  apply has_eoc_false in Hh as [Hh _].
+  unfold legal in Hl. destruct (ph s) eqn:Hph; try discriminate.
+  rewrite (i_ceB1 _ _ Hi) in Hh; auto; try discriminate. rewrite Hph. reflexivity.
+Qed.
 
 (* ------------------------------------------------------------------------------------------ *)
-(* The invariant of the pair machine *)
+(* The tunnel: witnesses for the crossed-EOF defect and its repair *)
 
-Definition is_conf (p : phase) : bool := match p with Confirmed => true | _ => false end.
+Definition crossed_ops : list top :=
+  [OpL (DataA [1;2]); OpL Confirm; OpR (DataA [3]); Deliver12; Deliver21;
+   OpL EofA; OpR EofA;          (* both endpoints half-close before either CHANNEL_EOF arrives *)
+   Deliver12; Deliver21].       (* the two EOFs cross *)
 
-Record INV (c : cfg) (s : st) : Prop := mkINV {
-  i_peer : f_peer (sa s) = f_peer (sb s);
-  i_btr : f_tr (sb s) = f_peer (sb s);
-  i_apeer : is_conf (ph s) = true -> f_tr (sa s) = true -> f_peer (sa s) = true;
-  i_pre : is_conf (ph s) = false ->
-          sb s = fw0 /\ outB s = [] /\ inB s = [] /\ lostB s = false /\ f_peer (sa s) = false;
-  i_failed : ph s = Failed -> f_tr (sa s) = false;
-  i_bbuf : f_buf (sb s) = [];
-  i_ab : inA s = written (outB s) ++ f_buf (sa s);
-  i_abuf : is_conf (ph s) = true -> f_buf (sa s) = [];
-  i_ba : exists t, inB s = written (outA s) ++ t /\ (f_tr (sa s) = true -> t = []);
-  i_ordA : ordered (outA s) = true;
-  i_ordB : ordered (outB s) = true;
-  i_ccA : count_close (outA s) = if f_tr (sa s) then O else 1%nat;
-  i_ccB : count_close (outB s) = if f_tr (sb s) || negb (is_conf (ph s)) then O else 1%nat;
-  i_ceB0 : f_eof (sa s) = false -> count_eof (outB s) = O;
-  i_ceA0 : f_eof (sb s) = false -> count_eof (outA s) = O;
-  i_ceB1 : is_conf (ph s) = true -> f_eof (sa s) = true -> count_eof (outB s) = 1%nat;
-  i_lostA : lostA s = true -> f_tr (sa s) = false;
-  i_lostB : lostB s = true -> f_tr (sa s) = false /\ f_tr (sb s) = false;
-  i_fix : fix_lost_early c = true ->
-          asrt s = false /\ (is_conf (ph s) = true -> f_tr (sa s) = f_tr (sb s))
-}.
+Lemma tunnel_crossed_old_witness :
+  let t := trun cfg_old crossed_ops in
+  q12 t = [] /\ q21 t = [] /\
+  written (outA (tr_ t)) = [1;2] /\ written (outA (tl t)) = [3] /\
+  count_eof (outA (tl t)) = 1%nat /\ count_eof (outA (tr_ t)) = 1%nat /\
+  tun_all_closed t = false /\
+  f_tr (sa (tl t)) = true /\ f_tr (sb (tl t)) = true /\ f_tr (sa (tr_ t)) = true /\ f_tr (sb (tr_ t)) = true.
+Proof. vm_compute. repeat split. Qed.
 
-Lemma inv_st0 c : INV c st0.
-Proof.
-  constructor; simpl; try reflexivity; try discriminate; auto.
-  exists []. split; reflexivity.
-Qed.
-
-Lemma inv_linked c : INV c st_linked.
-Proof.
-  constructor; simpl; try reflexivity; try discriminate; auto.
-  exists []. split; reflexivity.
-Qed.
+Lemma tunnel_crossed_fixed_witness :
+  let t := trun cfg_fixed (crossed_ops ++ [Deliver12; Deliver21]) in
+  q12 t = [] /\ q21 t = [] /\
+  written (outA (tr_ t)) = [1;2] /\ written (outA (tl t)) = [3] /\
+  count_eof (outA (tl t)) = 1%nat /\ count_eof (outA (tr_ t)) = 1%nat /\
+  tun_all_closed t = true.
+Proof. vm_compute. repeat split. Qed.
 
 (* ------------------------------------------------------------------------------------------ *)
-(* preservation *)
+(* The registry *)
 
-Ltac spec_all :=
-  repeat match goal with
-  | H : ?x = ?x -> _ |- _ => specialize (H eq_refl)
-  | H : ?a = ?b -> _, H' : ?a = ?b |- _ => specialize (H H')
-  | H : true = false -> _ |- _ => clear H
-  | H : false = true -> _ |- _ => clear H
-  | H : Pending = Failed -> _ |- _ => clear H
-  | H : Confirmed = Failed -> _ |- _ => clear H
-  | H : _ /\ _ |- _ => destruct H
-  | H : exists _, _ |- _ => destruct H
-  | H : mkF _ _ _ _ = fw0 |- _ => inversion H; clear H
-  end.
-
-(* split on one boolean, simplify, prune *)
-Ltac db b := destruct b; cbn in *; spec_all; try discriminate; subst; rewrite ?app_nil_r in *.
-
-Arguments ordered l : simpl never.
-
-Ltac cnt :=
-  repeat (rewrite ?count_eof_app, ?count_close_app; cbn [count_eof count_close Nat.add]);
-  solve [ reflexivity | assumption | lia | congruence | discriminate ].
-Ltac ordfin :=
-  first [ assumption | reflexivity
-        | apply ordered_snoc;
-          [ ordfin | cnt | cbn [is_data_or_eof]; intros; first [ discriminate | cnt ] ] ].
-Ltac lfin :=
-  lazymatch goal with
-  | |- ordered _ = true => solve [ ordfin ]
-  | _ =>
-    repeat (rewrite ?written_app, ?count_eof_app, ?count_close_app, ?app_nil_r, <- ?app_assoc;
-            cbn [written count_eof count_close app]);
-    solve [ reflexivity | assumption | discriminate | congruence | lia ]
-  end.
-
-Lemma written_snoc l e : written (l ++ [e]) = written l ++ match e with TWrite d => d | _ => [] end.
-Proof. rewrite written_app. destruct e; simpl; rewrite ?app_nil_r; reflexivity. Qed.
-
-Ltac exfin :=
-  repeat (rewrite ?written_snoc, <- ?app_assoc; cbn [app]);
-  first [ reflexivity | symmetry; apply app_nil_r ].
-
-Ltac leaf1 :=
-  cbn; intros; try discriminate;
-  lazymatch goal with
-  | |- exists t, _ =>
-      first
-        [ exists (@nil Z); split;
-          [ rewrite ?written_snoc, ?app_nil_r; cbn [app]; rewrite ?app_nil_r; reflexivity
-          | intros; reflexivity ]
-        | eexists; split; [ exfin | intros; first [ lfin | subst; lfin | spec_all; subst; lfin ] ] ]
-  | _ =>
-      repeat match goal with |- _ /\ _ => split end; intros;
-      first [ lfin | subst; lfin | spec_all; subst; lfin ]
-  end.
-Ltac leaf := cbn in *; constructor; leaf1.
-
-Section Step.
-Variable c : cfg.
-
-Ltac start s H o :=
-  intros H; destruct s as [[ta pa ba ea] [tb pb bb eb] p oa ob la lb ia ib asr];
-  destruct H as [H1 H2 H3 H4 H5 H6 H7 H8 H9 H10 H11 H12 H13 H14 H15 H16 H17 H18 H19];
-  cbn in H1, H2, H3, H4, H5, H6, H7, H8, H9, H10, H11, H12, H13, H14, H15, H16, H17, H18, H19;
-  subst pa tb bb; destruct c as [fc fl fr]; cbn in *.
-
-Lemma inv_dataA s d : INV c s -> legal s (DataA d) = true -> INV c (apply c s (DataA d)).
+Lemma zremove_notin k l : zmem k (zremove k l) = false.
 Proof.
-  start s H o. intros Hl. try db ta. try db ea. destruct p; try db pb; leaf.
+  unfold zmem, zremove. induction l as [|x l IH]; simpl; [reflexivity|].
+  destruct (x =? k) eqn:E; simpl; [assumption|].
+  rewrite Z.eqb_sym, E. simpl. assumption.
 Qed.
 
-Lemma inv_dataB s d : INV c s -> legal s (DataB d) = true -> INV c (apply c s (DataB d)).
+Lemma zmem_in y t : In y t -> zmem y t = true.
+Proof. intros H. unfold zmem. apply existsb_exists. exists y. split; [assumption | apply Z.eqb_refl]. Qed.
+
+Lemma filter_all_out t l : (forall y, In y l -> zmem y t = true) ->
+  filter (fun k => negb (zmem k t)) l = [].
 Proof.
-  start s H o. intros Hl. try db pb. try db eb. try db lb. destruct p; cbn in *; spec_all; try discriminate.
-  try db ta; leaf.
+  induction l as [|y l IH]; intros Hin; simpl; [reflexivity|].
+  rewrite (Hin y (or_introl eq_refl)). simpl. apply IH. intros z Hz. apply Hin. right. assumption.
 Qed.
 
-Lemma inv_eofA s : INV c s -> legal s EofA = true -> INV c (apply c s EofA).
+(* open = table, always, for every configuration *)
+Lemma reg_open_table_step c r o : r_open r = r_table r -> r_open (rstep c r o) = r_table (rstep c r o).
 Proof.
-  start s H o. intros Hl. try db ta. try db ea. destruct p; try db pb; try db eb; leaf.
+  intros IH. destruct o; simpl.
+  - destruct (r_cleaned r || zmem k (r_inflight r) || zmem k (r_open r)); simpl; assumption.
+  - destruct (zmem k (r_inflight r)); [|assumption].
+    destruct (r_cleaned r && fix_register c); simpl; [assumption | rewrite IH; reflexivity].
+  - destruct (zmem k (r_table r)); simpl; [rewrite IH; reflexivity | assumption].
+  - rewrite IH. apply filter_all_out. intros y Hy. apply zmem_in. assumption.
 Qed.
 
-Lemma inv_closeA s : INV c s -> legal s CloseA = true -> INV c (apply c s CloseA).
+Lemma rrun_ind (P : reg -> Prop) c :
+  P reg0 -> (forall r o, P r -> P (rstep c r o)) -> forall ops, P (rrun c ops).
 Proof.
-  start s H o. intros Hl. try db la. try db ta; destruct p; try db pb; leaf.
+  intros H0 Hs ops. unfold rrun. generalize reg0 H0. induction ops as [|o ops IH]; intros r Hr; simpl; auto.
 Qed.
 
-Lemma inv_closeB s : INV c s -> legal s CloseB = true -> INV c (apply c s CloseB).
+Lemma reg_open_table c ops : r_open (rrun c ops) = r_table (rrun c ops).
+Proof. apply rrun_ind; [reflexivity | intros; apply reg_open_table_step; assumption]. Qed.
+
+(* after cleanup nothing is registered any more unless it is registered later (unrepaired code) *)
+Lemma reg_cleanup_now c ops :
+  let r := rrun c (ops ++ [RCleanup]) in r_table r = [] /\ r_open r = [] /\ r_cleaned r = true.
 Proof.
-  start s H o. intros Hl. destruct p; cbn in *; try discriminate. try db lb. try db ta; try db pb; leaf.
+  intros r. assert (Ht : r_table r = [] /\ r_cleaned r = true).
+  { unfold r, rrun. rewrite fold_left_app. simpl. split; reflexivity. }
+  destruct Ht as [Ht Hc]. repeat split; try assumption.
+  unfold r. rewrite reg_open_table. exact Ht.
 Qed.
 
-Lemma inv_fail s : INV c s -> legal s Fail = true -> INV c (apply c s Fail).
+(* with the repair: once the connection has been cleaned up no listener / relayed socket exists,
+   whatever completes later *)
+Lemma reg_released_fixed c ops : fix_register c = true ->
+  let r := rrun c ops in r_cleaned r = true -> r_table r = [] /\ r_open r = [].
 Proof.
-  start s H o. intros Hl. destruct p; cbn in *; try discriminate. spec_all. subst. inversion H1; subst.
-  try db ta; leaf.
+  intros Hf r. unfold r.
+  assert (H : r_cleaned (rrun c ops) = true -> r_table (rrun c ops) = []).
+  { apply rrun_ind; [discriminate|]. intros r0 o IH. destruct o; simpl.
+    - destruct (r_cleaned r0 || zmem k (r_inflight r0) || zmem k (r_open r0)); simpl; assumption.
+    - destruct (zmem k (r_inflight r0)); [|assumption]. rewrite Hf, andb_true_r.
+      destruct (r_cleaned r0) eqn:Hc; simpl; [auto | intros; discriminate].
+    - destruct (zmem k (r_table r0)); simpl; [|assumption].
+      intros Hc. rewrite (IH Hc). reflexivity.
+    - reflexivity. }
+  intros Hc. split; [auto | rewrite reg_open_table; auto].
 Qed.
-End Step.
+
+Lemma reg_released_old_witness :
+  let r := rrun cfg_old [RBegin 1; RCleanup; RFinish 1] in
+  r_cleaned r = true /\ r_inflight r = [] /\ r_open r = [1] /\ r_table r = [1].
+Proof. vm_compute. repeat split. Qed.
+
+(* ------------------------------------------------------------------------------------------ *)
+(* The permission decision *)
+
+Lemma served_iff kind k cr app host port :
+  decide kind k cr app host port = Served <->
+  key_permits k = true /\ cert_permits cr = true /\
+  (kind = KDirectTcp -> permitopen_permits k host port = true) /\ app = true.
+Proof.
+  unfold decide, decide_direct_tcpip, decide_other.
+  destruct kind, (key_permits k), (cert_permits cr), app; simpl;
+    try destruct (permitopen_permits k host port); simpl;
+    split; intros H; try discriminate; try reflexivity;
+    try (repeat split; solve [reflexivity | intros; reflexivity | intros; discriminate]);
+    try (destruct H as (H1 & H2 & H3 & H4); try discriminate; try (specialize (H3 eq_refl)); discriminate).
+Qed.
+
+Lemma app_consulted_spec kind k cr host port :
+  app_consulted kind k cr host port = true <->
+  (decide kind k cr true host port = Served /\ decide kind k cr false host port = Refused).
+Proof.
+  unfold app_consulted, decide, decide_direct_tcpip, decide_other.
+  destruct kind, (key_permits k), (cert_permits cr); simpl;
+    try destruct (permitopen_permits k host port); simpl;
+    split; intros H; try discriminate; try reflexivity; try (split; reflexivity);
+    destruct H; discriminate.
+Qed.
+
+Lemma prohibited_ignores_app kind k cr host port :
+  app_consulted kind k cr host port = false ->
+  forall app, decide kind k cr app host port = Prohibited.
+Proof.
+  unfold app_consulted, decide, decide_direct_tcpip, decide_other.
+  destruct kind, (key_permits k), (cert_permits cr); simpl;
+    try destruct (permitopen_permits k host port); simpl; intros H app; try discriminate; reflexivity.
+Qed.
+
+(* the meaning of the three components *)
+Lemma key_permits_spec k : key_permits k = true <-> ko_no_pf k = false.
+Proof. unfold key_permits. destruct (ko_no_pf k); simpl; split; intros; congruence. Qed.
+
+Lemma cert_permits_spec cr : cert_permits cr = true <-> (cr = None \/ cr = Some true).
+Proof. destruct cr as [[|]|]; simpl; split; intros H; auto; try discriminate; destruct H; discriminate. Qed.
+
+Lemma po_mem_spec x l : po_mem x l = true <-> In x l.
+Proof.
+  unfold po_mem. rewrite existsb_exists. split.
+  - intros [y [Hy He]]. unfold po_eqb in He. apply andb_true_iff in He as [H1 H2].
+    apply zlist_eqb_spec in H1. destruct x as [h p], y as [h' p']. simpl in *. subst h'.
+    destruct p as [p|], p' as [p'|]; simpl in H2; try discriminate.
+    + apply Z.eqb_eq in H2. subst. assumption.
+    + assumption.
+  - intros Hin. exists x. split; [assumption|]. unfold po_eqb. rewrite zlist_eqb_refl. simpl.
+    destruct (snd x); simpl; [apply Z.eqb_refl | reflexivity].
+Qed.
+
+Lemma permitopen_permits_spec k host port :
+  permitopen_permits k host port = true <->
+  (ko_permitopen k = [] \/ In (host, Some port) (ko_permitopen k) \/ In (host, None) (ko_permitopen k)).
+Proof.
+  unfold permitopen_permits. destruct (ko_permitopen k) as [|x l] eqn:E.
+  - split; auto.
+  - rewrite orb_true_iff, !po_mem_spec. split.
+    + intros [H | H]; auto.
+    + intros [H | [H | H]]; [discriminate | auto | auto].
+Qed.
